@@ -812,7 +812,8 @@ class GroupNorm(Module):
 
     group_shape = x.shape[:-1] + (self.num_groups, self.group_size)
     if mask is not None:
-      mask = mask.reshape(mask.shape[:-1] + (self.num_groups, self.group_size))
+      # the mask only has to be broadcastable to the inputs
+      mask = jnp.broadcast_to(mask, x.shape).reshape(group_shape)
 
     mean, var = _compute_stats(
       x.reshape(group_shape),
